@@ -53,8 +53,9 @@ def gen_case(rng, cid, dev2_ok, scratch, small=False, large=False):
         if rng.chance(1, 6):
             # a name that is not valid UTF-8 (%FF = the raw byte 0xFF, decoded by the harness): the name patterns see it lossily
             # converted (U+FFFD), which `*`, `?` and the literal parts around it still match
-            k = rng.below(len(name) + 1)
-            name = name[:k] + "%FF" + name[k:]
+            k = rng.choice([1, 1, rng.below(len(name) + 1)])
+            # raw 0xFF (invalid UTF-8), backslash, newline, ESC: characters whose escaped (report) spelling differs from the text
+            name = name[:k] + rng.choice(["%FF", "%FF", "%5C", "%0A", "%1B"]) + name[k:]
         return "/".join([r] + dirs + [name])
 
     def times():
@@ -108,13 +109,13 @@ def gen_case(rng, cid, dev2_ok, scratch, small=False, large=False):
     prio = [rng.below(12) for _ in range(L)]
     pats = {"kn": [], "kp": [], "dn": [], "dp": []}
     if rng.chance(3, 10):
-        pats["kn"] = [rng.choice(["k*", "*.a", "f1*", "?2*", "*"])] + ([rng.choice(["x*", "*.b"])] if rng.chance(1, 3) else [])
+        pats["kn"] = [rng.choice(["k*", "*.a", "f1*", "?2*", "*", "k?[0-9]*", "??[0-9]*"])] + ([rng.choice(["x*", "*.b"])] if rng.chance(1, 3) else [])
     if rng.chance(2, 10):
-        pats["kp"] = [rng.choice(["**/r0/**", "**/d0/*", "/**/r1/**", "**/d1/d0/**"])]
+        pats["kp"] = [rng.choice(["**/r0/**", "**/d0/*", "/**/r1/**", "**/d1/d0/**", "**/?[!0-9][0-9]*", "**/k?[0-9]*"])]
     if rng.chance(25, 100):
-        pats["dn"] = [rng.choice(["*.b", "x*", "*", "f*", "k*"])] + ([rng.choice(["*.a", "?1*"])] if rng.chance(1, 3) else [])
+        pats["dn"] = [rng.choice(["*.b", "x*", "*", "f*", "k*", "??[0-9]*"])] + ([rng.choice(["*.a", "?1*"])] if rng.chance(1, 3) else [])
     if rng.chance(2, 10):
-        pats["dp"] = [rng.choice(["**/r1/**", "**/d1/**", "/**/r0/**", "**/r2/*"])]
+        pats["dp"] = [rng.choice(["**/r1/**", "**/d1/**", "/**/r0/**", "**/r2/*", "**/??[0-9]*", "**/x?[0-9]*"])]
     case = {"id": cid, "glen": glen, "op": rng.choice(OPS), "movedir": rng.choice(["mvdst", "r0/mv", "out/a/b"]),
             "n": None if rng.chance(3, 10) else rng.choice([0, 1, 1, 2, 2, 3, 4, 5]),
             "mlinks": rng.chance(3, 10), "nosize": rng.chance(2, 10),
@@ -375,7 +376,7 @@ def examine(ctx, cases, results, model_out, scratch, count=True):
             ctx.distinct(json.dumps({k: v for k, v in case.items() if k != "id"}, sort_keys=True), nontriv)
             ctx.bump("members", len(case["members"]) if len(case["members"]) <= 12 else "24-40")
             ctx.bump("op", case["op"])
-            ctx.bump("non_utf8_names", min(3, sum(1 for m in case["members"] if "%FF" in m["path"])))
+            ctx.bump("names_with_raw_0xFF_backslash_or_control_bytes", min(3, sum(1 for m in case["members"] if "%" in m["path"])))
             ctx.bump("n", case["n"])
             ctx.bump("priority_list_len", len(case["prio"]))
             for p in case["prio"]:
